@@ -34,7 +34,17 @@ def n_cases(tier):
     return 6000 if tier == 'thorough' else 300
 
 
+ASYNC_HOLDERS = ['buffer', 'delay', 'rate_limit', 'map_async', 'timed_window', 'timed_window_unique',
+                 'partition_timeout', 'latest']
+
+
 def one_case(rng, tier):
+    if rng.random() < 0.35:
+        from .. import aprogs
+        g = aprogs.AGen(rng, async_ops=ASYNC_HOLDERS, max_nodes=7, fail_prob=0.0, p_async=0.5)
+        prog = g.program(min_async=1)
+        return {'prog': prog, 'producers': g.producers(prog, max_total=16), 'awaiting': rng.random() < 0.7,
+                'family': 'async', 'inputs': [], 'mode': 'vloop'}
     g = progs.Gen(rng, max_nodes=12 if tier == 'thorough' else 10)
     prog = g.program()
     inputs = g.inputs(prog, max_len=40 if tier == 'thorough' else 25)
@@ -155,12 +165,12 @@ def run_shard(seed, tier, shard, nshards):
             continue
         nn = [s for s in case['prog']['nodes'] if s['op'] not in ('sink', 'sink_flush')]
         if len(nn) >= 3 and res.n_cmp and res.n_held:
-            out['keys'].append(progs.prog_key(case['prog'], [case['inputs'], case['mode']]))
+            out['keys'].append(progs.prog_key(case['prog'], [case['inputs'], case['mode'], case.get('producers')]))
         out['violations'].extend(viols)
         if len(out['samples']) < 2 and len(nn) >= 4 and res.n_held > 3:
             i, snap = res.quiescent[-1]
             out['samples'].append({'program': [' '.join('%s=%s' % kv for kv in s.items() if kv[1] not in (None, [], {})) for s in case['prog']['nodes']],
-                                   'inputs': case['inputs'][:10], 'mode': case['mode'],
+                                   'inputs': case['inputs'][:10] or case.get('producers'), 'mode': case['mode'],
                                    'final_quiescent_point': {u: {'count': c, 'signals': t, 'model_holders': h}
                                                              for u, (c, t, h) in list(snap.items())[:10]}})
     return out
